@@ -4,6 +4,7 @@
 -/
 import JS.Codec
 import JS.Drafts
+import JS.History
 namespace JS.Channels
 open JS JS.Codec
 
@@ -94,13 +95,8 @@ def resToExcept {α : Type} (r : Res α) (onRaise : Exc → Json) : Except Query
   | .raise e => .ok (.error (onRaise e))
   | .miss q => .error q
 
-/-- VAL: one `iter_errors` run consumed per `budget`, from a fresh resolver -/
-def runVAL (env : Env) (p : Json) : Except Query Json :=
-  let (cfg, _) := decCfg (fldD p "cls" .null) (fldD p "fc" .null)
-  let schema := fldD p "schema" .null
-  let inst := fldD p "inst" .null
-  let budget := optNat (fld p "budget")
-  let fuel := (optNat (fld p "fuel")).getD 200
+/-- the resolver a case describes (or the default `RefResolver.from_schema(schema)`) -/
+def setupResolver (env : Env) (cfg : Cfg) (schema : Json) (p : Json) : Res RState :=
   let r := fldD p "resolver" (.obj [])
   let base := match fld r "base" with
     | some (.str b) => b
@@ -109,7 +105,16 @@ def runVAL (env : Env) (p : Json) : Except Query Json :=
       | _ => []
   let cacheRemote := match fld r "cacheRemote" with | some (.bool b) => b | _ => true
   let memoCap := match fld r "memoCap" with | some .null => none | some j => asNatJ j | none => some 1024
-  match mkResolver env registeredMetas base schema (decStore (fld r "store")) cacheRemote memoCap with
+  mkResolver env registeredMetas base schema (decStore (fld r "store")) cacheRemote memoCap
+
+/-- VAL: one `iter_errors` run consumed per `budget`, from a fresh resolver -/
+def runVAL (env : Env) (p : Json) : Except Query Json :=
+  let (cfg, _) := decCfg (fldD p "cls" .null) (fldD p "fc" .null)
+  let schema := fldD p "schema" .null
+  let inst := fldD p "inst" .null
+  let budget := optNat (fld p "budget")
+  let fuel := (optNat (fld p "fuel")).getD 200
+  match setupResolver env cfg schema p with
   | .miss q => .error q
   | .raise e => .ok (.obj [("ctor".toList, encExc e)])
   | .ok st =>
@@ -117,6 +122,50 @@ def runVAL (env : Env) (p : Json) : Except Query Json :=
     match o.stop with
     | .miss q => .error q
     | _ => .ok (encOut o)
+
+def decOp (j : Json) : Option Op :=
+  match j with
+  | .arr [.str k, a] =>
+    match String.ofList k with
+    | "isValid" => some (.isValid a)
+    | "exhaust" => some (.exhaust a)
+    | "validate" => some (.validate a)
+    | "resolve" => (asStr a).map .resolve
+    | _ => none
+  | .arr [.str k, n, a] =>
+    match String.ofList k, asNatJ n with
+    | "take", some n => some (.take n a)
+    | _, _ => none
+  | _ => none
+
+def encOpResult : OpResult → Json
+  | .verdict b => .arr [jS "verdict", .bool b]
+  | .errors es s => .arr [jS "errors", .arr (es.map encErr), encStop s]
+  | .valid => .arr [jS "valid"]
+  | .invalid e => .arr [jS "invalid", encErr e]
+  | .resolved u d => .arr [jS "resolved", .str u, d]
+  | .raised e => .arr [jS "raised", encExc e]
+  | .other s => .arr [jS "other", encStop s]
+
+def missOf : OpResult → Option Query
+  | .errors _ (.miss q) => some q
+  | .other (.miss q) => some q
+  | _ => none
+
+/-- HIST: a sequence of operations on one validator object -/
+def runHIST (env : Env) (p : Json) : Except Query Json :=
+  let (cfg, _) := decCfg (fldD p "cls" .null) (fldD p "fc" .null)
+  let schema := fldD p "schema" .null
+  let fuel := (optNat (fld p "fuel")).getD 200
+  let ops := match fld p "ops" with | some (.arr os) => os.filterMap decOp | _ => []
+  match setupResolver env cfg schema p with
+  | .miss q => .error q
+  | .raise e => .ok (.obj [("ctor".toList, encExc e)])
+  | .ok st =>
+    let (rs, _) := runHist env noFmtImpl cfg fuel schema st ops
+    match rs.findSome? (fun r => missOf r.1) with
+    | some q => .error q
+    | none => .ok (.arr (rs.map fun r => .obj [("r".toList, encOpResult r.1), ("st".toList, encState r.2)]))
 
 /-- PTR: `resolve_fragment(document, fragment)` -/
 def runPTR (p : Json) : Json :=
@@ -127,6 +176,7 @@ def runPTR (p : Json) : Json :=
 def run (ch : String) (env : Env) (p : Json) : Except Query Json :=
   match ch with
   | "VAL" => runVAL env p
+  | "HIST" => runHIST env p
   | "PTR" => .ok (runPTR p)
   | _ => .ok (.arr [jS "unknown-channel"])
 
